@@ -48,7 +48,7 @@ type HConfig struct {
 	ParLife           int64    `json:"par_life_ms"`
 	ParEnforced       bool     `json:"par_enforced"`
 	JWTAccess         bool     `json:"jwt_access,omitempty"` // access tokens are JWTs (compose.NewOAuth2JWTStrategy); monitors only
-	ContractStore     bool     `json:"contract_store,omitempty"` // device codes follow the documented "invalidated => request + ErrInvalidatedDeviceCode" contract; monitors only
+	ContractStore     bool     `json:"contract_store,omitempty"` // device codes follow the documented "invalidated => request + ErrInvalidatedDeviceCode" contract (cf_dev_contract in the model)
 	RawStore          bool     `json:"raw_store,omitempty"` // run on the raw MemoryStore (aliasing included) instead of the by-value adapter
 }
 
@@ -850,9 +850,9 @@ func coqAurls(l []string) string {
 
 func coqCfg(c *HConfig) string {
 	strat := map[string]string{"exact": "SExact", "hierarchic": "SHierarchic", "wildcard": "SWildcard"}[c.Scope]
-	return fmt.Sprintf("(Build_config %s %s %s %s %s %s %s %s %s %s %s %s %s)", strat, B(c.AudExact), QL(c.RefreshScopes),
+	return fmt.Sprintf("(Build_config %s %s %s %s %s %s %s %s %s %s %s %s %s %s)", strat, B(c.AudExact), QL(c.RefreshScopes),
 		Z(c.LifeCode), Z(c.LifeAT), Z(c.LifeRT), B(c.PkceEnforce), B(c.PkceEnforcePublic), B(c.PkcePlain), B(c.IntrospectRT),
-		Z(c.LifeDev), Z(c.ParLife), B(c.ParEnforced))
+		Z(c.LifeDev), Z(c.ParLife), B(c.ParEnforced), B(c.ContractStore))
 }
 
 func coqClient(c *HClient) string {
